@@ -207,6 +207,44 @@ def gen_ops(cfg, amap, rng, word_bytes):
             for k in range(nops):
                 ops.append(Op(rng.randint(50, 400), rng.random() < wr_frac,
                               addr_of(rng.choice(hot_banks), rng.choice(hot_rows), rng.choice(hot_cols))))
+        elif cls in ("hammer-same-row", "hammer-alt-rows", "many-ports-one-bank", "yielding", "round-robin-banks",
+                     "writes-vs-reader", "reads-vs-writer"):
+            victim = (p == 0)
+            depth = cfg.get("cs", {}).get("cmd_buffer_depth", 8)
+            b0 = hot_banks[0]
+            r0, r1 = hot_rows[0], hot_rows[1 % len(hot_rows)]
+            if cls in ("hammer-same-row", "hammer-alt-rows", "many-ports-one-bank", "yielding"):
+                if victim:
+                    for k in range(wl.get("victim_ops", 30)):
+                        ops.append(Op(rng.randint(0, 6), rng.random() < wr_frac,
+                                      addr_of(b0, rng.choice([r0, r1, rng.randrange(nrows)]), rng.randrange(ncolw))))
+                else:
+                    k = 0
+                    while k < nops:
+                        if cls == "yielding":
+                            n = rng.randint(1, max(1, depth))
+                            for j in range(n):
+                                ops.append(Op(wl.get("yield_gap", 80) if j == 0 else 0, rng.random() < wr_frac,
+                                              addr_of(b0, r0 if rng.random() < 0.7 else r1, rng.randrange(ncolw))))
+                            k += n
+                        else:
+                            row = r0 if cls != "hammer-alt-rows" else (r0 if k % 2 == 0 else r1)
+                            ops.append(Op(0, rng.random() < wr_frac, addr_of(b0, row, rng.randrange(ncolw))))
+                            k += 1
+            elif cls == "round-robin-banks":
+                for k in range(nops if not victim else wl.get("victim_ops", 30)):
+                    ops.append(Op(0 if not victim else rng.randint(0, 6), rng.random() < wr_frac,
+                                  addr_of((k + p) % nbanks_total, r0 if rng.random() < 0.8 else r1, rng.randrange(ncolw))))
+            else:
+                # direction adversaries: others stream one direction over all banks, victim does the other
+                adv_we = (cls == "writes-vs-reader")
+                if victim:
+                    for k in range(wl.get("victim_ops", 30)):
+                        ops.append(Op(rng.randint(0, 6), not adv_we, addr_of((k * 3 + 1) % nbanks_total, r1, rng.randrange(ncolw))))
+                else:
+                    for k in range(nops):
+                        # the adversary never keeps a bank busy for long: it walks the banks
+                        ops.append(Op(0, adv_we, addr_of((k + p) % nbanks_total, r0, rng.randrange(ncolw))))
         elif cls == "explicit":
             for (gap, we, a) in wl["ops"][p]:
                 ops.append(Op(gap, bool(we), a))
@@ -249,7 +287,9 @@ def run_case(cfg, want_fsm=False):
     phy, geom, timing, clk_freq, module = build_settings(cfg["mem"])
     cs = dict(cfg.get("cs", {}))
     if cfg.get("trefi_override"):
-        timing.tREFI = cfg["trefi_override"]
+        # only the *interval* is altered (schedule exploration); keep the refresh duty below ~1/3 so that traffic can
+        # make progress between refreshes
+        timing.tREFI = max(cfg["trefi_override"], 3 * (timing.tRP + timing.tRFC) + 20)
     nports = cfg["nports"]
     dut = CoreDUT(phy, geom, timing, clk_freq, cs, [dict() for _ in range(nports)])
     nphases = phy.nphases
